@@ -508,6 +508,16 @@ class StarBattle(Base):
                 else:
                     continue
                 out.append({"tag": "n%d/r%d" % (n, k), "n": n, "k": 1 if n < 5 or rng.random() < 0.7 else 2, "blocks": room_ids(n, n, rooms)})
+
+        for n in ((8,) if tier == "quick" else (8, 9, 10)):
+            for k in range(2 if tier == "quick" else 4):
+                for _try in range(80):
+                    rooms = random_rooms(rng, n, n, n)
+                    if len(rooms) == n and min(len(r) for r in rooms) >= 4:
+                        break
+                else:
+                    continue
+                out.append({"tag": "n%d/k2/r%d" % (n, k), "n": n, "k": 2, "blocks": room_ids(n, n, rooms)})
         return out
 
     def call(self, mod, d):
@@ -931,6 +941,20 @@ class Compass(Base):
                 cells = rng.sample([(y, x) for y in range(h) for x in range(w)], rng.randint(1, min(3, h * w)))
                 prob = [(y, x) + tuple(rng.choice([-1, -1, 0, 1, 2]) for _ in range(4)) for (y, x) in cells]
                 out.append({"tag": "%dx%d/r%d" % (h, w, k), "h": h, "w": w, "problem": prob})
+
+        # systematic: one compass at each cell with exactly one numbered direction (values 0, 1, 2), plus a second plain compass
+        for (h, w) in [(2, 3), (3, 2), (1, 4), (4, 1)]:
+            for y in range(h):
+                for x in range(w):
+                    for di in range(4):
+                        for v in (0, 1, 2):
+                            c = [-1, -1, -1, -1]
+                            c[di] = v
+                            prob = [(y, x) + tuple(c)]
+                            other = (h - 1 - y, w - 1 - x)
+                            if other != (y, x):
+                                prob.append(other + (-1, -1, -1, -1))
+                            out.append({"tag": "%dx%d/at%d,%d/dir%d=%d" % (h, w, y, x, di, v), "h": h, "w": w, "problem": prob})
         return out
 
     def call(self, mod, d):
@@ -1004,6 +1028,17 @@ class Lits(Base):
             for k in range(5 if tier == "quick" else 25):
                 rooms = random_rooms(rng, h, w, rng.randint(1, 3))
                 out.append({"tag": "%dx%d/r%d" % (h, w, k), "h": h, "w": w, "rooms": rooms})
+
+        # regions fat enough to hold a plus-shaped neighbourhood (a T centred on a cell whose four neighbours are in the region),
+        # next to other regions, so that T / L / S signatures matter
+        fat = [(3, 5, lambda y, x: 0 if x < 3 else 1), (5, 3, lambda y, x: 0 if y < 3 else 1), (4, 4, lambda y, x: 0 if (y < 3 and x < 3) else 1),
+               (3, 6, lambda y, x: 0 if x < 3 else 1), (4, 5, lambda y, x: 0 if x < 3 else (1 if y < 2 else 2))]
+        for (h, w, f) in fat[: (3 if tier == "quick" else 5)]:
+            rooms = {}
+            for y in range(h):
+                for x in range(w):
+                    rooms.setdefault(f(y, x), []).append((y, x))
+            out.append({"tag": "%dx%d/fat" % (h, w), "h": h, "w": w, "rooms": [rooms[k] for k in sorted(rooms)]})
         return out
 
     def call(self, mod, d):
